@@ -7,7 +7,10 @@
  R4 transition: slice variable in the log domain (H - Exp(1)); accept under s' == 1, U <= min(1, n'/n) and finite log-density;
     point/log-density/gradient installed together from the primed triple (gradient copied); n += n' after the test; loop
     stops on s != 1 or depth; tuning statistic alpha/n_alpha
- R5 dual averaging update (dependence and sign of each term), identical in both implementations up to renaming
+ R5 dual averaging update (dependence and sign of each term)
+
+All statement patterns are matched modulo consistent renaming of local variables and parameters (sa/pattern.py): `$x` is a
+metavariable; the two implementations (experimental `point/logd`, legacy `theta/joint`) are checked by the same patterns.
 """
 from __future__ import annotations
 import ast
@@ -15,20 +18,18 @@ from fractions import Fraction
 from typing import Dict, List, Optional, Tuple
 
 from ..index import Repo, AnchorError
-from ..cfg import CFG, path_of, ReachingDefs
+from ..cfg import CFG, path_of
 from ..flow import Expander, signed_terms, split_coefficient
 from ..astutil import unparse, call_name, func_params
+from ..pattern import statements, unify, find, norm
 from .common import site
 from .c02 import _finite_guard
 
-IMPLS = [
-    ("cuqi/experimental/mcmc/_hmc.py", "NUTS", {"pos": "point", "val": "logd"}, "exp"),
-    ("cuqi/sampler/_hmc.py", "NUTS", {"pos": "theta", "val": "joint"}, "leg"),
-]
+IMPLS = [("cuqi/experimental/mcmc/_hmc.py", "NUTS", "exp"), ("cuqi/sampler/_hmc.py", "NUTS", "leg")]
 
 
 def _norm(e) -> str:
-    return unparse(e).replace(" ", "").replace("\n", "")
+    return norm(e)
 
 
 def run(chk, repo: Repo):
@@ -37,16 +38,16 @@ def run(chk, repo: Repo):
     chk.rule("C08-R3", "tree recursion: guard s'==1, outermost state by direction, selection ratio and update order, paired copy, U-turn with both momenta", floor=2)
     chk.rule("C08-R4", "transition: log-domain slice, accept guard, paired cache update, count update after the test, loop condition, tuning statistic", floor=2)
     chk.rule("C08-R5", "dual averaging: H_bar, epsilon, epsilon_bar updates with the documented dependence and signs", floor=2)
-    for mod, cls, names, iface in IMPLS:
+    for mod, cls, iface in IMPLS:
         ci = repo.cls(f"{mod}:{cls}")
-        _leapfrog(chk, repo, ci, names)
-        _buildtree(chk, repo, ci, names)
-        _transition(chk, repo, ci, names, iface)
+        _leapfrog(chk, repo, ci)
+        _buildtree(chk, repo, ci)
+        _transition(chk, repo, ci, iface)
         _dual_averaging(chk, repo, ci, iface)
 
 
 # ------------------------------------------------------------------------------------------------ R1
-def _leapfrog(chk, repo, ci, names):
+def _leapfrog(chk, repo, ci):
     fn = repo.method(ci, "_Leapfrog")[1]
     p_old, r_old, g_old, eps = func_params(fn)[1:5]
     ex = Expander(fn)
@@ -58,13 +59,11 @@ def _leapfrog(chk, repo, ci, names):
     x1, r2, l1, g1 = rets[0].ast.value.elts
     problems = []
     syms = {eps: "e"}
-    # momentum: expand fully except the call results
     r2e = ex.expand(r2, rn)
     terms = {}
     for sgn, t in signed_terms(r2e):
         (c, pw), rest = split_coefficient(t, syms)
         terms[tuple(rest)] = (sgn * c, pw)
-    g1_name = unparse(g1)
     want_r = {(r_old,): (Fraction(1), {}), (g_old,): (Fraction(1, 2), {"e": Fraction(1)})}
     got_new = [k for k in terms if k not in want_r]
     for k, v in want_r.items():
@@ -76,10 +75,8 @@ def _leapfrog(chk, repo, ci, names):
         k = got_new[0]
         if terms[k] != (Fraction(1, 2), {"e": Fraction(1)}):
             problems.append(f"second half-step coefficient is {terms[k]}, not the same eps/2 as the first half-step")
-        # the gradient used in the second half-step is the gradient at the new point
-        if "_nuts_target" not in k[0]:
-            problems.append(f"second half-step uses `{k[0]}`, not the gradient evaluated at the new point")
-    # position
+        if len(k) != 1 or "_nuts_target" not in k[0]:
+            problems.append(f"second half-step uses `{k}`, not the gradient evaluated at the new point")
     x1e = ex.expand(x1, rn)
     pt = {}
     for sgn, t in signed_terms(x1e):
@@ -88,12 +85,17 @@ def _leapfrog(chk, repo, ci, names):
     if pt.get((p_old,)) != (Fraction(1), {}):
         problems.append(f"position update does not start from {p_old}")
     other = [k for k in pt if k != (p_old,)]
-    if len(other) != 1 or pt[other[0]] != (Fraction(1), {"e": Fraction(1)}) or _norm(ast.parse(other[0][0], mode="eval").body) not in (
-            f"({r_old}+0.5*{eps}*{g_old})", f"{r_old}+0.5*{eps}*{g_old}"):
+    half = None
+    if len(other) == 1 and len(other[0]) == 1:
+        inner = ast.parse(other[0][0], mode="eval").body
+        it = {}
+        for sgn, t in signed_terms(inner):
+            (c, pw), rest = split_coefficient(t, syms)
+            it[tuple(rest)] = (sgn * c, pw)
+        half = it
+    if len(other) != 1 or pt[other[0]] != (Fraction(1), {"e": Fraction(1)}) or half != want_r:
         problems.append(f"position update `{unparse(x1e)}` is not {p_old} + eps*(half-stepped momentum)")
-    # target evaluation at the new point
     l1e, g1e = ex.expand(l1, rn), ex.expand(g1, rn)
-    xname = unparse(x1)
     for e, idx in ((l1e, 0), (g1e, 1)):
         ok = isinstance(e, ast.Subscript) and isinstance(e.value, ast.Call) and call_name(e.value) == "self._nuts_target" \
             and isinstance(e.slice, ast.Constant) and e.slice.value == idx
@@ -108,220 +110,268 @@ def _leapfrog(chk, repo, ci, names):
     ok = len(rets) == 1 and _norm(rets[0].value) == f"(self.target.logd({x}),self.target.gradient({x}))"
     chk.add("C08-R1", f"{ci.qual}._nuts_target", ok, site(repo, nt), "(target.logd(x), target.gradient(x))", "log-density and gradient are not both of self.target at the same x", nt)
     kf = repo.method(ci, "_Kfun")[1]
+    r, fl = func_params(kf)[1:3]
     t = _norm(kf)
-    ok = "return0.5*(r.T@r)" in t and "np.random.standard_normal(size=self.dim)" in t
+    ok = f"return 0.5*({r}.T@{r})" in t and "np.random.standard_normal(size=self.dim)" in t
     chk.add("C08-R1", f"{ci.qual}._Kfun", ok, site(repo, kf), "K(r) = r.r/2, r ~ N(0, I)", "kinetic energy / momentum draw changed", kf)
 
 
 # ------------------------------------------------------------------------------------------------ R2 / R3
-def _buildtree(chk, repo, ci, names):
+def _buildtree(chk, repo, ci):
     fn = repo.method(ci, "_BuildTree")[1]
-    P, V = names["pos"], names["val"]
     g = CFG(fn)
-    ex = Expander(fn, g)
     inst = f"{ci.qual}._BuildTree"
-    base_t = [t for t in g.tests() if _norm(t.ast) == "j==0"]
+    P = func_params(fn)
+    if len(P) < 9:
+        raise AnchorError(f"{inst}: signature changed")
+    B0 = dict(zip(["x0", "r0", "g0", "H", "U", "V", "J", "E"], P[1:9]))
+    base_t = [t for t in g.tests() if _norm(t.ast) == f"{B0['J']}==0"]
     if len(base_t) != 1:
         raise AnchorError(f"{inst}: base-case test j == 0 not found")
     bt = base_t[0]
 
-    def stmts(label):
-        return {_norm(n.ast): n for n in g.nodes if n.ast is not None and n.kind == "stmt" and g.requires_edge(n, bt, label)}
-    base = stmts("T")
-    problems = []
-    need = [
-        f"{P}_prime,r_prime,{V}_prime,grad_prime=self._Leapfrog({func_params(fn)[1]},r,grad,v*epsilon)",
-        f"Ham_prime={V}_prime-self._Kfun(r_prime,'eval')",
-        "n_prime=int(log_u<=Ham_prime)",
-        "s_prime=int(log_u<Delta_max+Ham_prime)",
-        "diff_Ham=Ham_prime-Ham",
-        "n_alpha_prime=1",
-        f"{P}_minus,{P}_plus=({P}_prime,{P}_prime)",
-        "r_minus,r_plus=(r_prime,r_prime)",
-        "grad_minus,grad_plus=(grad_prime,grad_prime)",
+    def region(label):
+        return [( _norm(n.ast) if n.kind != "test" else "if: " + _norm(n.ast), n.ast) for n in g.nodes
+                if n.ast is not None and n.kind in ("stmt", "test") and g.requires_edge(n, bt, label)]
+    base = region("T")
+    leaf_patterns = [
+        "$x1,$r1,$l1,$g1=self._Leapfrog($x0,$r0,$g0,$V*$E)",
+        "$H1=$l1-self._Kfun($r1,'eval')",
+        "$n1=int($U<=$H1)",
+        "$s1=int($U<$Dmax+$H1)",
+        "$na1=1",
+        "$xm,$xp=($x1,$x1)",
+        "$rm,$rp=($r1,$r1)",
+        "$gm,$gp=($g1,$g1)",
     ]
     msgs = ["one leapfrog step of signed length v*epsilon from the given state", "H' = logd' - K(r')", "slice indicator n' = [log u <= H']",
-            "divergence indicator s' = [log u < Delta_max + H']", "energy error H' - H", "n_alpha' = 1",
-            "both tree ends are the new state", "both end momenta are the new momentum", "both end gradients are the new gradient"]
-    for pat, msg in zip(need, msgs):
-        if pat not in base:
-            problems.append(f"leaf: {msg} (`{pat}` not found)")
-    ap = [t for t in base if t.startswith("alpha_prime=")]
-    if not ap or ap[0] not in ("alpha_prime=1ifdiff_Ham>0elsenp.exp(diff_Ham)", "alpha_prime=min(1,np.exp(diff_Ham))", "alpha_prime=1ifdiff_Ham>=0elsenp.exp(diff_Ham)"):
-        problems.append(f"leaf: alpha' is `{ap[0] if ap else None}`, not min(1, exp(H' - H))")
-    # Delta_max default
-    d = dict(zip(reversed([a.arg for a in fn.args.args]), reversed(fn.args.defaults)))
-    if "Delta_max" not in d or not (isinstance(d["Delta_max"], ast.Constant) and d["Delta_max"].value >= 100):
-        problems.append("Delta_max default is not a large positive constant")
+            "divergence indicator s' = [log u < Delta_max + H']", "n_alpha' = 1", "both tree ends are the new state",
+            "both end momenta are the new momentum", "both end gradients are the new gradient"]
+    problems = []
+    b, fail = unify(leaf_patterns, base, B0)
+    if b is None:
+        problems.append(f"leaf: {msgs[fail]} (no statement of the base case matches `{leaf_patterns[fail]}` consistently with the others)")
+        b = dict(B0)
+    else:
+        # alpha' = min(1, exp(H' - H))
+        ok = False
+        for pats in (["$dH=$H1-$H", "$a1=1 if $dH>0 else np.exp($dH)"], ["$dH=$H1-$H", "$a1=1 if $dH>=0 else np.exp($dH)"], ["$dH=$H1-$H", "$a1=min(1,np.exp($dH))"],
+                     ["$a1=min(1,np.exp($H1-$H))"]):
+            bb, _ = unify(pats, base, b)
+            if bb is not None:
+                b, ok = bb, True
+                break
+        if not ok:
+            problems.append("leaf: alpha' is not min(1, exp(H' - H))")
+        d = dict(zip(reversed([a.arg for a in fn.args.args]), reversed(fn.args.defaults)))
+        dm = b.get("Dmax")
+        if dm not in d or not (isinstance(d[dm], ast.Constant) and isinstance(d[dm].value, (int, float)) and d[dm].value >= 100):
+            problems.append("Delta_max is not a parameter with a large positive default")
     chk.add("C08-R2", inst + "/leaf", not problems, site(repo, bt.ast), "leaf quantities as in Hoffman & Gelman Alg. 6", "; ".join(problems), fn)
 
-    # recursion
-    rec = stmts("F")
+    # ---- recursion
+    rec = region("F")
     problems = []
-    s_t = [t for t in g.tests() if _norm(t.ast) == "s_prime==1" and g.requires_edge(t, bt, "F")]
+    need = ["x1", "l1", "g1", "n1", "s1", "a1", "na1", "xm", "rm", "gm", "xp", "rp", "gp"]
+    if any(k not in b for k in need):
+        chk.fail("C08-R3", inst + "/recursion", site(repo, bt.ast), "leaf bindings incomplete; recursion not analysed", fn)
+        return
+    first = unify(["$xm,$rm,$gm,$xp,$rp,$gp,$x1,$l1,$g1,$n1,$s1,$a1,$na1=self._BuildTree($x0,$r0,$g0,$H,$U,$V,$J-1,$E)"], rec, b)
+    if first[0] is None:
+        problems.append("first subtree is not built from the given state with depth j-1 and bound to the same 13 result names as the leaf")
+    s_t = [t for t in g.tests() if _norm(t.ast) == f"{b['s1']}==1" and g.requires_edge(t, bt, "F")]
     if len(s_t) != 1:
         chk.fail("C08-R3", inst + "/recursion", site(repo, bt.ast), "the second subtree is built although the first one may already have stopped "
-                 "(no `s_prime == 1` guard in the recursion): states beyond a U-turn/divergence are counted and can be selected", fn)
+                 "(no `s' == 1` guard in the recursion): states beyond a U-turn/divergence are counted and can be selected", fn)
         return
     st = s_t[0]
+    inner = [(t, a) for (t, a) in rec if g.requires_edge(g.stmt_node_containing(a) if not isinstance(a, ast.expr) else g.node_of(a), st, "T")]
+    vt = [t for t in g.tests() if _norm(t.ast) == f"{b['V']}==-1" and g.requires_edge(t, st, "T")]
+    if len(vt) != 1:
+        problems.append("direction test v == -1 not found under the guard")
+    else:
+        minus = [(t, a) for (t, a) in inner if not isinstance(a, ast.expr) and g.requires_edge(g.stmt_node_containing(a), vt[0], "T")]
+        plus = [(t, a) for (t, a) in inner if not isinstance(a, ast.expr) and g.requires_edge(g.stmt_node_containing(a), vt[0], "F")]
+        bm, _ = unify(["$xm,$rm,$gm,$_a,$_b,$_c,$x2,$l2,$g2,$n2,$s2,$a2,$na2=self._BuildTree($xm,$rm,$gm,$H,$U,$V,$J-1,$E)"], minus, b, distinct=False)
+        if bm is None:
+            problems.append("second subtree in direction -1 does not start from (and store back) the minus end")
+        bp, _ = unify(["$_a,$_b,$_c,$xp,$rp,$gp,$x2,$l2,$g2,$n2,$s2,$a2,$na2=self._BuildTree($xp,$rp,$gp,$H,$U,$V,$J-1,$E)"], plus, bm or b, distinct=False)
+        if bp is None:
+            problems.append("second subtree in direction +1 does not start from (and store back) the plus end, or binds other result names than the -1 branch")
+        b2 = bp or bm
+        if b2 is not None:
+            b = b2
+    # every recursive call beyond the first is guarded
     calls = [n for n in g.nodes if n.ast is not None and n.kind == "stmt" and isinstance(n.ast, ast.Assign)
              and isinstance(n.ast.value, ast.Call) and call_name(n.ast.value) == "self._BuildTree"]
-    if len(calls) != 3:
-        raise AnchorError(f"{inst}: expected 3 recursive calls, found {len(calls)}")
-    first = [c for c in calls if not g.requires_edge(c, st, "T")]
-    second = [c for c in calls if g.requires_edge(c, st, "T")]
-    if len(first) != 1 or len(second) != 2:
+    if sum(1 for c in calls if not g.requires_edge(c, st, "T")) != 1 or len(calls) != 3:
         problems.append("the second subtree is not built exclusively under s' == 1")
-    else:
-        a0 = [_norm(a) for a in first[0].ast.value.args]
-        if a0 != [func_params(fn)[1], "r", "grad", "Ham", "log_u", "v", "j-1", "epsilon"]:
-            problems.append(f"first subtree call arguments {a0}")
-        vt = [t for t in g.tests() if _norm(t.ast) == "v==-1" and g.requires_edge(t, st, "T")]
-        if len(vt) != 1:
-            problems.append("direction test v == -1 not found")
+    if "n2" in b:
+        sel = None
+        for form in ("$p=$n2/max(1,$n1+$n2)", "$p=$n2/max(1,($n1+$n2))", "$p=$n2/max($n1+$n2,1)"):
+            bb, used = unify([form, "if: np.random.rand()<=$p"], inner, b)
+            if bb is None:
+                bb, used = unify([form, "if: np.random.rand()<$p"], inner, b)
+            if bb is not None:
+                sel = (bb, used)
+                break
+        if sel is None:
+            cand = find("$p=$n2/$den", inner, b)
+            cand2 = [(bb, nd) for pat in ("$p=$rhs",) for bb, nd in [] ]
+            anyp = [t for t, a in inner if t.split("=")[0] and f"{b['n2']}/" in t]
+            problems.append(f"subtree selection probability is `{anyp[0] if anyp else '?'}`, not n''/max(1, n' + n'') compared with one uniform draw")
         else:
-            for c in second:
-                args = [_norm(a) for a in c.ast.value.args]
-                side = "minus" if g.requires_edge(c, vt[0], "T") else "plus"
-                if args != [f"{P}_{side}", f"r_{side}", f"grad_{side}", "Ham", "log_u", "v", "j-1", "epsilon"]:
-                    problems.append(f"second subtree in direction {'-1' if side == 'minus' else '+1'} does not start from the {side} end: {args}")
-                tg = [_norm(e) for e in c.ast.targets[0].elts]
-                keep = [f"{P}_{side}", f"r_{side}", f"grad_{side}"]
-                pos = tg[:3] if side == "minus" else tg[3:6]
-                if pos != keep:
-                    problems.append(f"second subtree's {side} end is not stored back ({pos})")
-                if tg[6:] != [f"{P}_2prime", f"{V}_2prime", "grad_2prime", "n_2prime", "s_2prime", "alpha_2prime", "n_alpha_2prime"]:
-                    problems.append(f"second subtree results bound to {tg[6:]}")
-    a2 = [n for t, n in rec.items() if t.startswith("alpha2=")]
-    if len(a2) != 1:
-        problems.append("selection probability alpha2 not found")
-    else:
-        v = _norm(a2[0].ast.value)
-        if v not in ("n_2prime/max(1,n_prime+n_2prime)", "n_2prime/max(1,(n_prime+n_2prime))", "n_2prime/max(n_prime+n_2prime,1)"):
-            problems.append(f"subtree selection probability is `{unparse(a2[0].ast.value)}`, not n''/max(1, n' + n'')")
-        # n_prime used in alpha2 must still be the first subtree's count
-        rd = ex.rd
-        for dnode in rd.reaching(a2[0], "n_prime"):
-            dn = g.nodes[dnode]
-            if isinstance(dn.ast, ast.AugAssign):
-                problems.append("n' is increased before the selection probability is computed")
-    sel_t = [t for t in g.tests() if _norm(t.ast) in ("np.random.rand()<=alpha2", "np.random.rand()<alpha2") and g.requires_edge(t, st, "T")]
-    if len(sel_t) != 1:
-        problems.append("selection test U <= alpha2 not found")
-    else:
-        sel = {_norm(n.ast) for n in g.nodes if n.ast is not None and n.kind == "stmt" and g.requires_edge(n, sel_t[0], "T")}
-        want = {f"{P}_prime=np.copy({P}_2prime)", f"{V}_prime=np.copy({V}_2prime)", "grad_prime=np.copy(grad_2prime)"}
-        if sel != want:
-            problems.append(f"selected candidate is not installed as the triple {sorted(want)} (found {sorted(sel)})")
-    for pat, msg in (("alpha_prime+=alpha_2prime", "alpha accumulates"), ("n_alpha_prime+=n_alpha_2prime", "n_alpha accumulates"),
-                     ("n_prime+=n_2prime", "n' accumulates"), (f"d{P}s={P}_plus-{P}_minus" if P == "point" else f"d{P}={P}_plus-{P}_minus", "trajectory span")):
-        if pat not in rec:
-            problems.append(f"recursion: {msg} (`{pat}` not found)")
-        elif not g.requires_edge(rec[pat], st, "T"):
-            problems.append(f"recursion: `{pat}` is executed although the first subtree already stopped")
-    span = "dpoints" if P == "point" else f"d{P}"
-    sp = [t for t in rec if t.startswith("s_prime=")]
-    ok = any(t in (f"s_prime=s_2prime*int({span}@r_minus.T>=0)*int({span}@r_plus.T>=0)",) for t in sp)
-    if not ok:
-        problems.append(f"U-turn/stop indicator is `{sp}`, not s'' * [span.r_minus >= 0] * [span.r_plus >= 0]")
+            b, used = sel
+            # n' must not have been increased before the probability is computed
+            from ..cfg import ReachingDefs
+            rd = ReachingDefs(g)
+            pn = g.stmt_node_containing(used[0])
+            for dnode in rd.reaching(pn, b["n1"]):
+                if isinstance(g.nodes[dnode].ast, ast.AugAssign):
+                    problems.append("n' is increased before the selection probability is computed")
+            seltest = g.node_of(used[1].test) if isinstance(used[1], ast.If) else None
+            if seltest is None:
+                tests = [t for t in g.tests() if _norm(t.ast) in (f"np.random.rand()<={b['p']}", f"np.random.rand()<{b['p']}")]
+                seltest = tests[0] if tests else None
+            if seltest is not None:
+                chosen = {_norm(n.ast) for n in g.nodes if n.ast is not None and n.kind == "stmt" and g.requires_edge(n, seltest, "T")}
+                want = {f"{b['x1']}=np.copy({b['x2']})", f"{b['l1']}=np.copy({b['l2']})", f"{b['g1']}=np.copy({b['g2']})"}
+                alt = {w.replace("np.copy(", "").replace(")", ".copy()") for w in want}
+                if chosen != want and chosen != alt:
+                    problems.append(f"selected candidate is not installed as the copied triple {sorted(want)} (found {sorted(chosen)})")
+        upd = ["$a1+=$a2", "$na1+=$na2", "$n1+=$n2", "$span=$xp-$xm"]
+        bb, fail = unify(upd, inner, b)
+        if bb is None:
+            problems.append(f"recursion: accumulation `{upd[fail]}` missing under the guard")
+        else:
+            b = bb
+            ok = unify(["$s1=$s2*int($span@$rm.T>=0)*int($span@$rp.T>=0)"], inner, b)[0] is not None
+            if not ok:
+                sp = [t for t, a in inner if t.startswith(b["s1"] + "=")]
+                problems.append(f"U-turn/stop indicator is `{sp}`, not s'' * [span.r_minus >= 0] * [span.r_plus >= 0]")
     rets = g.returns()
-    want_ret = f"({P}_minus,r_minus,grad_minus,{P}_plus,r_plus,grad_plus,{P}_prime,{V}_prime,grad_prime,n_prime,s_prime,alpha_prime,n_alpha_prime)"
+    want_ret = "(" + ",".join(b.get(k, "?") for k in ["xm", "rm", "gm", "xp", "rp", "gp", "x1", "l1", "g1", "n1", "s1", "a1", "na1"]) + ")"
     if len(rets) != 1 or _norm(rets[0].ast.value) != want_ret:
-        problems.append("return tuple changed")
+        problems.append("the 13 results are not returned in the order the callers unpack them")
     chk.add("C08-R3", inst + "/recursion", not problems, site(repo, st.ast), "doubling recursion as in Hoffman & Gelman Alg. 6", "; ".join(problems), fn)
 
 
 # ------------------------------------------------------------------------------------------------ R4
-def _transition(chk, repo, ci, names, iface):
-    P, V = names["pos"], names["val"]
+def _transition(chk, repo, ci, iface):
     fn = repo.method(ci, "step" if iface == "exp" else "_sample")[1]
     g = CFG(fn)
     inst = f"{ci.qual}.{fn.name}"
     problems = []
-    S = {_norm(n.ast): n for n in g.nodes if n.ast is not None and n.kind == "stmt"}
+    S = statements(fn)
     # slice variable
-    lu = [(t, n) for t, n in S.items() if t.startswith("log_u=")]
-    if len(lu) != 1:
-        raise AnchorError(f"{inst}: slice variable log_u not found")
-    v = lu[0][0][len("log_u="):]
-    if v not in ("Ham-np.random.exponential(1,size=1)", "Ham-np.random.exponential(1)", "Ham+np.log(np.random.rand())"):
-        if "np.exp(Ham)" in v:
-            problems.append(f"slice variable `{unparse(lu[0][1].ast.value)}` exponentiates the Hamiltonian: exp(H) underflows to 0 for H < -745 "
-                            f"(log u = -inf: every leaf is in the slice, no divergence is ever detected); it must be drawn in the log domain (H - Exp(1))")
-        else:
-            raise AnchorError(f"{inst}: unknown slice-variable idiom `{v}`")
-    ham = [t for t in S if t.startswith("Ham=")]
-    cur_l = "logd_k" if iface == "exp" else "joint_k"
-    if ham != [f"Ham={cur_l}-self._Kfun(r_k,'eval')"]:
-        problems.append(f"Hamiltonian is `{ham}`, not current log-density minus K(r)")
-    if "r_k=self._Kfun(1,'sample')" not in S:
-        problems.append("momentum is not resampled each transition")
-    # loop
-    loops = [n for n in ast.walk(fn) if isinstance(n, ast.While)]
-    wl = [w for w in loops if _norm(w.test) in ("s==1andj<=self.max_depth",)]
-    if len(wl) != 1:
-        problems.append(f"doubling loop condition is not (s == 1) and (j <= max_depth): {[unparse(w.test) for w in loops]}")
-    if "j,s,n=(0,1,1)" not in S:
-        problems.append("tree state is not initialised as j, s, n = 0, 1, 1")
-    # accept test
-    acc_t = [t for t in g.tests() if _norm(t.ast) in ("np.random.rand()<=alpha2", "np.random.rand()<alpha2")]
-    sp_t = [t for t in g.tests() if _norm(t.ast) == "s_prime==1"]
-    if len(acc_t) != 1 or len(sp_t) != 1:
-        raise AnchorError(f"{inst}: accept test not found")
-    if "alpha2=min(1,n_prime/n)" not in S:
-        problems.append("top-level acceptance probability is not min(1, n'/n)")
-    acc_nodes = [n for n in g.nodes if n.ast is not None and n.kind == "stmt" and g.requires_edge(n, acc_t[0], "T")]
-    acc_txt = {_norm(n.ast) for n in acc_nodes}
-    if iface == "exp":
-        want = {f"self.current_point={P}_prime", f"self.current_target_logd={V}_prime", "self.current_target_grad=np.copy(grad_prime)", "acc=1"}
-    else:
-        want = {f"{P}[:,k]={P}_prime", f"{V}_eval[k]={V}_prime", "grad=np.copy(grad_prime)"}
-    if acc_txt != want:
-        problems.append(f"accepted candidate is not installed as {sorted(want)} (found {sorted(acc_txt)})")
-    for n in acc_nodes:
-        if not g.requires_edge(n, sp_t[0], "T"):
-            problems.append("acceptance is not conditional on s' == 1")
+    lu = find("$U=$rhs", [(t, a) for t, a in S if "exponential" in t or "uniform" in t or ("np.log(np.random" in t)])
+    b = None
+    for form in ("$U=$H-np.random.exponential(1,size=1)", "$U=$H-np.random.exponential(1)", "$U=$H+np.log(np.random.rand())"):
+        bb, used = unify([form, "$H=$l0-self._Kfun($r0,'eval')", "$r0=self._Kfun(1,'sample')"], S)
+        if bb is not None:
+            b = bb
             break
-    # finite guard (experimental: in the test; legacy: NaN aborts the run by a raise after the iteration)
-    have = set()
-    for n in acc_nodes[:1]:
-        for t, lab in g.guards_of(n):
-            fg = _finite_guard(t.ast, lab)
-            if fg and _norm(fg[1]) == f"{V}_prime":
-                have.add(fg[0])
-    if iface == "exp":
-        if not ("finite" in have or {"nan", "inf"} <= have):
-            problems.append("accept branch is not guarded against a NaN/infinite proposed log-density")
+    if b is None:
+        bad = [t for t, a in S if "np.exp(" in t and ("uniform" in t or "rand" in t)]
+        if bad:
+            problems.append(f"slice variable `{bad[0]}` exponentiates the Hamiltonian: exp(H) underflows to 0 for H < -745 "
+                            f"(log u = -inf: every leaf is in the slice, no divergence is ever detected); it must be drawn in the log domain (H - Exp(1))")
+            chk.fail("C08-R4", inst, site(repo, fn), "; ".join(problems), fn)
+            return
+        raise AnchorError(f"{inst}: slice variable / Hamiltonian / momentum resampling idiom not recognised")
+    # doubling loop
+    loops = [n for n in ast.walk(fn) if isinstance(n, ast.While)]
+    lb = None
+    for w in loops:
+        m = find("while: $s==1 and $j<=self.max_depth", [("while: " + _norm(w.test), w)])
+        if m:
+            lb = m[0][0]
+            wl = w
+    if lb is None:
+        problems.append(f"doubling loop condition is not (s == 1) and (j <= max_depth): {[unparse(w.test) for w in loops]}")
+        chk.fail("C08-R4", inst, site(repo, fn), "; ".join(problems), fn)
+        return
+    b.update(lb)
+    bb, _ = unify(["$j,$s,$n=(0,1,1)"], S, b)
+    if bb is None:
+        problems.append("tree state is not initialised as j, s, n = 0, 1, 1")
     else:
-        post = [n for n in g.nodes if n.kind == "raisestmt" and any("np.isnan(joint_eval[k])" in _norm(t.ast) for t, lab in g.guards_of(n))]
-        if not post and not ("finite" in have or {"nan", "inf"} <= have):
-            problems.append("neither a finite guard on the accept branch nor a NaN abort after the iteration")
-        elif post and "inf" not in have and "finite" not in have:
-            chk.note(f"C08-R4 {inst}: NaN states abort the run (raise after the iteration); -inf candidates cannot be selected because they are "
-                     f"outside the slice (n' = 0 for H' = -inf), so no isinf conjunct is needed for soundness — sibling divergence from the experimental guard, tabled")
-    # n += n_prime after the accept test, inside the loop; s update with both momenta; depth increment
-    cnt = S.get("n+=n_prime")
-    if cnt is None:
-        problems.append("`n += n_prime` not found")
+        b = bb
+    body = statements(wl) + [("if: " + _norm(t.ast), t.ast) for t in g.tests()]
+    # the two direction branches bind the same primed results
+    calls = find("$_t=self._BuildTree($_args)", [])  # placeholder (not used)
+    tup = [a for t, a in body if isinstance(a, ast.Assign) and isinstance(a.value, ast.Call) and call_name(a.value) == "self._BuildTree"]
+    if len(tup) != 2:
+        problems.append("expected one tree-building call per direction")
     else:
-        if not g.reaches(acc_t[0], cnt) or g.reaches(cnt, g.node_of(acc_t[0].ast)) and not wl:
-            problems.append("n is not increased after the acceptance test")
-        a2 = S.get("alpha2=min(1,n_prime/n)")
-        if a2 is not None:
-            # within one loop iteration: alpha2 computed before n += n_prime
-            if not g.dominates(a2, cnt):
-                problems.append("n is increased before the acceptance probability is computed")
-    span = "dpoints" if P == "point" else f"d{P}"
-    if not any(t == f"s=s_prime*int({span}@r_minus.T>=0)*int({span}@r_plus.T>=0)" for t in S):
-        problems.append("stop indicator is not s' * [span.r_minus >= 0] * [span.r_plus >= 0]")
-    if f"{span}={P}_plus-{P}_minus" not in S:
-        problems.append("trajectory span is not plus end minus minus end")
-    if "j+=1" not in S:
-        problems.append("depth is not increased")
-    # tuning statistic
-    if iface == "exp":
-        if "self._current_alpha_ratio=alpha/n_alpha" not in S:
-            problems.append("tuning statistic is not alpha / n_alpha of the last doubling")
+        names = [[_norm(e) for e in a.targets[0].elts] for a in tup]
+        if names[0][6:] != names[1][6:]:
+            problems.append("the two directions bind the subtree results to different names")
+        x1, l1, g1, n1, s1, al, nal = names[0][6:13]
+        b.update({"x1": x1, "l1": l1, "g1": g1, "n1": n1, "s1": s1, "al": al, "nal": nal})
+        for a in tup:
+            args = [_norm(x) for x in a.value.args]
+            tg = [_norm(e) for e in a.targets[0].elts]
+            side = tg[:3] if tg[0] != "_" else tg[3:6]
+            if args[:3] != side or args[3:] != [b["H"], b["U"], args[5], b["j"], args[7]]:
+                problems.append(f"tree is not extended from (and stored back to) its own end with (H, log u, v, j, eps): args {args}, targets {tg[:6]}")
+    if "n1" in b:
+        acc = None
+        for form in (["$p=min(1,$n1/$n)", "if: $s1==1", "if: np.random.rand()<=$p"], ["$p=min(1,$n1/$n)", "if: $s1==1", "if: np.random.rand()<$p"]):
+            bb, used = unify(form, body, b)
+            if bb is not None:
+                acc = (bb, used)
+                break
+        if acc is None:
+            problems.append("top-level acceptance is not `s' == 1 and U <= min(1, n'/n)`")
+        else:
+            b, used = acc
+            sp_t = [t for t in g.tests() if _norm(t.ast) == f"{b['s1']}==1"]
+            acc_t = [t for t in g.tests() if _norm(t.ast) in (f"np.random.rand()<={b['p']}", f"np.random.rand()<{b['p']}")]
+            acc_nodes = [n for n in g.nodes if n.ast is not None and n.kind == "stmt" and g.requires_edge(n, acc_t[0], "T")]
+            acc_txt = {_norm(n.ast) for n in acc_nodes}
+            if iface == "exp":
+                want = {f"self.current_point={b['x1']}", f"self.current_target_logd={b['l1']}", f"self.current_target_grad=np.copy({b['g1']})", "acc=1"}
+                ok_inst = acc_txt == want
+            else:
+                inst_b, _ = unify(["$chain[:,$k]=$x1", "$lchain[$k]=$l1", "$gcur=np.copy($g1)"], [(t, n.ast) for t, n in zip([_norm(n.ast) for n in acc_nodes], acc_nodes)], b)
+                ok_inst = inst_b is not None and len(acc_txt) == 3
+                if inst_b:
+                    b = inst_b
+            if not ok_inst:
+                problems.append(f"accepted candidate is not installed as (point, log-density, copied gradient) of the primed triple (found {sorted(acc_txt)})")
+            for n in acc_nodes:
+                if not sp_t or not g.requires_edge(n, sp_t[0], "T"):
+                    problems.append("acceptance is not conditional on s' == 1")
+                    break
+            have = set()
+            for n in acc_nodes[:1]:
+                for t, lab in g.guards_of(n):
+                    fg = _finite_guard(t.ast, lab)
+                    if fg and _norm(fg[1]) == b["l1"]:
+                        have.add(fg[0])
+            if iface == "exp":
+                if not ("finite" in have or {"nan", "inf"} <= have):
+                    problems.append("accept branch is not guarded against a NaN/infinite proposed log-density")
+            else:
+                post = [n for n in g.nodes if n.kind == "raisestmt" and any("np.isnan(" in _norm(t.ast) for t, lab in g.guards_of(n))]
+                if not post and not ("finite" in have or {"nan", "inf"} <= have):
+                    problems.append("neither a finite guard on the accept branch nor a NaN abort after the iteration")
+                elif post and "inf" not in have and "finite" not in have:
+                    chk.note(f"C08-R4 {inst}: NaN states abort the run (raise after the iteration); -inf candidates cannot be selected because they are "
+                             f"outside the slice (n' = 0 for H' = -inf) — sibling divergence from the experimental guard, tabled")
+            # counters after the test, within one iteration
+            bb, used = unify(["$n+=$n1", "$span=$xp-$xm", "$s=$s1*int($span@$rm.T>=0)*int($span@$rp.T>=0)", "$j+=1"], body, b)
+            if bb is None:
+                problems.append("after the acceptance test the loop does not update n += n', s = s' * [span.r_minus >= 0] * [span.r_plus >= 0], j += 1")
+            else:
+                b = bb
+                cnt = g.stmt_node_containing(used[0])
+                pnode = [n for n in g.nodes if n.ast is not None and n.kind == "stmt" and _norm(n.ast).startswith(b["p"] + "=min(1,")]
+                if not pnode or not g.dominates(pnode[0], cnt) or not g.reaches(acc_t[0], cnt):
+                    problems.append("n is increased before the acceptance probability is computed / the test is made")
+            if iface == "exp" and f"self._current_alpha_ratio={b.get('al')}/{b.get('nal')}" not in {t for t, a in body}:
+                problems.append("tuning statistic is not alpha / n_alpha of the last doubling")
     chk.add("C08-R4", inst, not problems, site(repo, fn), "slice, doubling loop, accept guard, paired cache update, counters", "; ".join(problems), fn)
 
 
@@ -329,20 +379,18 @@ def _transition(chk, repo, ci, names, iface):
 def _dual_averaging(chk, repo, ci, iface):
     if iface == "exp":
         fn = repo.method(ci, "tune")[1]
-        t = {_norm(s) for s in fn.body}
-        want = {
-            "k=update_count+1",
-            "gamma,t_0,kappa=(0.05,10,0.75)",
-            "eta1=1/(k+t_0)",
-            "self._H_bar=(1-eta1)*self._H_bar+eta1*(self.opt_acc_rate-self._current_alpha_ratio)",
-            "self._epsilon=np.exp(self._mu-np.sqrt(k)/gamma*self._H_bar)",
-            "eta=k**(-kappa)",
-            "self._epsilon_bar=np.exp(eta*np.log(self._epsilon)+(1-eta)*np.log(self._epsilon_bar))",
-        }
-        missing = sorted(want - t)
+        S = statements(fn)
+        uc = func_params(fn)[2]
+        pats = ["$k=" + uc + "+1", "$gam,$t0,$kap=(0.05,10,0.75)", "$e1=1/($k+$t0)",
+                "self._H_bar=(1-$e1)*self._H_bar+$e1*(self.opt_acc_rate-self._current_alpha_ratio)",
+                "self._epsilon=np.exp(self._mu-np.sqrt($k)/$gam*self._H_bar)", "$e=$k**(-$kap)",
+                "self._epsilon_bar=np.exp($e*np.log(self._epsilon)+(1-$e)*np.log(self._epsilon_bar))"]
+        b, fail = unify(pats, S)
+        extra = []
+        if b is None:
+            extra.append(f"dual-averaging update `{pats[fail]}` not found")
         init = repo.method(ci, "_initialize")[1]
         ti = _norm(init)
-        extra = []
         if "self._mu=np.log(10*self._epsilon)" not in ti:
             extra.append("mu is not log(10 * initial epsilon)")
         if "self._H_bar=0" not in ti:
@@ -353,30 +401,23 @@ def _dual_averaging(chk, repo, ci, iface):
         ps = repo.method(ci, "_pre_sample")[1]
         if "self._epsilon_bar=self._epsilon" not in _norm(ps):
             extra.append("without warm-up epsilon_bar is not the initial epsilon")
-        chk.add("C08-R5", f"{ci.qual}.tune", not missing and not extra, site(repo, fn), "Hoffman & Gelman Alg. 6 dual averaging",
-                "; ".join([f"missing update `{m}`" for m in missing] + extra), fn)
+        chk.add("C08-R5", f"{ci.qual}.tune", not extra, site(repo, fn), "Hoffman & Gelman Alg. 6 dual averaging", "; ".join(extra), fn)
     else:
         fn = repo.method(ci, "_sample")[1]
-        t = _norm(fn)
-        want = [
-            "eta1=1/(k+t_0)",
-            "H_bar=(1-eta1)*H_bar+eta1*(delta-alpha/n_alpha)",
-            "epsilon=np.exp(mu-np.sqrt(k)/gamma*H_bar)",
-            "eta=k**(-kappa)",
-            "epsilon_bar=np.exp(eta*np.log(epsilon)+(1-eta)*np.log(epsilon_bar))",
-            "mu=np.log(10*epsilon)",
-            "gamma,t_0,kappa=(0.05,10,0.75)",
-            "epsilon_bar,H_bar=(1,0)",
-            "delta=self.opt_acc_rate",
-        ]
-        missing = [w for w in want if w not in t]
-        g = CFG(fn)
-        fix = [n for n in g.nodes if n.ast is not None and _norm(n.ast) == "epsilon=epsilon_bar"]
+        S = statements(fn, nested=True)
+        pats = ["$gam,$t0,$kap=(0.05,10,0.75)", "$ebar,$Hb=(1,0)", "$del=self.opt_acc_rate", "$mu=np.log(10*$eps)",
+                "$e1=1/($k+$t0)", "$Hb=(1-$e1)*$Hb+$e1*($del-$al/$nal)", "$eps=np.exp($mu-np.sqrt($k)/$gam*$Hb)", "$e=$k**(-$kap)",
+                "$ebar=np.exp($e*np.log($eps)+(1-$e)*np.log($ebar))"]
+        b, fail = unify(pats, S)
         extra = []
-        if len(fix) != 1 or not any(_norm(tt.ast) == "k==Nb+1" and lab == "T" for tt, lab in g.guards_of(fix[0])):
-            extra.append("step size is not frozen to epsilon_bar at the first iteration after burn-in")
-        upd = [n for n in g.nodes if n.ast is not None and _norm(n.ast).startswith("H_bar=(1-eta1)")]
-        if upd and not any(_norm(tt.ast) == "k<=Nb" and lab == "T" for tt, lab in g.guards_of(upd[0])):
-            extra.append("adaptation is not restricted to the burn-in iterations k <= Nb")
-        chk.add("C08-R5", f"{ci.qual}._sample/dual-averaging", not missing and not extra, site(repo, fn), "inline dual averaging during burn-in",
-                "; ".join([f"missing update `{m}`" for m in missing] + extra), fn)
+        if b is None:
+            extra.append(f"dual-averaging update `{pats[fail]}` not found")
+        else:
+            g = CFG(fn)
+            fix = [n for n in g.nodes if n.ast is not None and n.kind == "stmt" and _norm(n.ast) == f"{b['eps']}={b['ebar']}"]
+            if len(fix) != 1 or not any(_norm(tt.ast) == f"{b['k']}==Nb+1" and lab == "T" for tt, lab in g.guards_of(fix[0])):
+                extra.append("step size is not frozen to epsilon_bar at the first iteration after burn-in")
+            upd = [n for n in g.nodes if n.ast is not None and n.kind == "stmt" and _norm(n.ast).startswith(f"{b['Hb']}=(1-")]
+            if upd and not any(_norm(tt.ast) == f"{b['k']}<=Nb" and lab == "T" for tt, lab in g.guards_of(upd[0])):
+                extra.append("adaptation is not restricted to the burn-in iterations k <= Nb")
+        chk.add("C08-R5", f"{ci.qual}._sample/dual-averaging", not extra, site(repo, fn), "inline dual averaging during burn-in", "; ".join(extra), fn)
